@@ -156,6 +156,15 @@ def gen_stack_cases(rng, tier):
     for i in range(4 if tier == "quick" else 40):
         junk = bytes(rng.randrange(256) for _ in range(rng.randrange(1, 200)))
         cases.append(["hostile role=s,type=PULL %s %s" % (E.hexspec(junk), rng.choice(["-", "1", "3,9"]))])
+    # k frames of one message towards a socket that prepends a frame of its own (ROUTER) and one that does not (PULL): at the frame
+    # limit the receiving side must refuse or deliver, never panic in the application's recv()
+    for rty, peer, extra in (("ROUTER", "DEALER", {"autodelim": 0}), ("PULL", "PUSH", {})):
+        for k in (253, 254, 255, 256):
+            c = {"role": "s", "type": rty}
+            c.update(extra)
+            hs = b"".join(b for _, b in E.peer_handshake(rng, c, peer_type=peer))
+            data = b"".join(E.frame(b"x" if i == 0 else b"y", more=(i < k - 1)) for i in range(k)) + E.frame(b"after")
+            cases.append(["rawpeer %s %s -" % (E.cfg_str(c), E.hexspec(hs + data))])
     # an UNAUTHENTICATED peer talking to a CURVE / NOISE / PLAIN server: whatever its first handshake commands contain
     def md(key, value):
         return bytes([len(key)]) + key + struct.pack(">I", len(value)) + value
@@ -194,7 +203,8 @@ SPEC = {
         {"comp": "stack", "gen": gen_stack_cases, "nontrivial": nontrivial, "label": "stack-hostile",
          "dist": lambda cs: {"cases": len(cs)}},
     ],
-    "search": lambda rng, tier: [("engine", gen_engine_cases(rng, tier), engine_oracle), ("wire", gen_wire_cases(rng, tier), wire_oracle)],
+    "search": lambda rng, tier: [("engine", gen_engine_cases(rng, tier), engine_oracle), ("wire", gen_wire_cases(rng, tier), wire_oracle),
+                                 ("stack", gen_stack_cases(rng, "quick"), None, False)],
     "rule": "engine: valid v2/v3 NULL/PLAIN transcripts mutated by bit flips, truncation, inserted long-frame headers with length "
             "extremes (0,255,256,2^31,2^63,2^64-1), duplicated/reordered slices, inserted random bytes, invalid UTF-8, 254..300 MORE "
             "frames, malformed READY metadata, pure random bytes; random segmentations; MAXMSGSIZE in {-1,0,1,10,255,256,1000}; "
